@@ -258,6 +258,18 @@ async fn read_initial_request(reader: &mut StreamReader) -> Result<SocketAddr> {
     }
 }
 
+/// Verification hook: run the private UDP-over-TCP request parser on a reader.
+#[cfg(feature = "verif-hooks")]
+pub async fn verif_read_initial_request(reader: &mut StreamReader) -> Result<SocketAddr> {
+    read_initial_request(reader).await
+}
+
+/// Verification hook: run the private UDP-over-TCP packet reader on a reader.
+#[cfg(feature = "verif-hooks")]
+pub async fn verif_read_udp_packet(reader: &mut StreamReader) -> Result<Vec<u8>> {
+    read_udp_packet(reader).await
+}
+
 /// Stream → UDP: Read packets from Stream, decode and send to UDP
 ///
 /// Protocol: Each packet is Length (2 bytes BE) + Payload
